@@ -1,6 +1,5 @@
 // C17 -- time maps: positive, increasing, C^1 across the branch, inverse, backward rule (E1 over a floating-point lattice).
-#include "common.hpp"
-#include "SplineOptimizer.hpp"
+#include "optkit.hpp"
 using namespace vf;
 using namespace SplineTrajectory;
 
@@ -8,6 +7,7 @@ static double step_ulps(double x, long n) {  // move n ulps (n may be negative),
   int64_t b; memcpy(&b, &x, 8); if (b < 0) b = (int64_t)0x8000000000000000LL - b;  // to a monotone integer line
   b += n; if (b < 0) b = (int64_t)0x8000000000000000LL - b; double r; memcpy(&r, &b, 8); return r;
 }
+static std::string fmt_vec(const std::vector<double> &v) { std::string r = "["; for (size_t i = 0; i < v.size(); ++i) r += fmt("%s%.17g", i ? "," : "", v[i]); return r + "]"; }
 static double ulp(double x) { x = std::fabs(x); return std::nextafter(x, INFINITY) - x; }
 static LD Tprime(LD tau) { if (tau > 0) return tau + 1; LD den = (0.5L * tau - 1) * tau + 1; return (1 - tau) / (den * den); }
 static LD Texact(LD tau) { return tau > 0 ? (0.5L * tau + 1) * tau + 1 : 1 / ((0.5L * tau - 1) * tau + 1); }
@@ -30,6 +30,8 @@ struct Chk {
     { double e = (double)(fabsl((LD)b1 - tp) / tp); c.st.obs("backward_rel_err", e); if (e > 1e-14) { fail("backward", tau, fmt("backward(.,.,1) = %.17g, T'(tau) = %.17Lg", b1, tp)); return; } }
     if (!(b1 > 0)) { fail("backward-sign", tau, "derivative not positive"); return; }
     if (m.backward(tau, T, 0.0) != 0.0 || !bits_equal(m.backward(tau, T, -1.0), -b1) || !bits_equal(m.backward(tau, T, 0.0009765625), b1 * 0.0009765625)) { fail("backward-linearity", tau, "not linear in the incoming gradient (0, -1, 2^-10)"); return; }
+    // exactly homogeneous in the incoming gradient over its whole dynamic range (a tolerance "nothing to propagate" would break this: C17-m5)
+    for (int k : {-900, -300, -100, -60, -45, -41, -40, -39, -30, -20, 20, 40, 100, 300, 900}) { const double gk = std::ldexp(1.0, k); if (!bits_equal(m.backward(tau, T, gk), b1 * gk) || !bits_equal(m.backward(tau, T, -gk), -(b1 * gk))) { fail("backward-linearity", tau, fmt("backward(., ., +-2^%d) is not 2^%d * backward(., ., 1) = %.17g", k, k, b1 * gk)); return; } }
     { double b3 = m.backward(tau, T, 3.0); if (std::fabs(b3 - 3.0 * b1) > 4 * ulp(3.0 * b1)) { fail("backward-linearity", tau, fmt("backward(3) = %.17g vs 3*backward(1) = %.17g", b3, 3.0 * b1)); return; } }
     // inverse
     const double back = m.toTau(T); double e = std::fabs(back - tau) / std::max(1.0, std::fabs(tau)); c.st.obs("toTau(toTime)_err", e);
@@ -88,6 +90,19 @@ int main(int argc, char **argv) {
         for (double h : {4.9406564584124654e-324, 1e-300, 1e-200, 1e-100, 1e-30, 1e-20, 1e-16}) for (double s : {1.0, -1.0}) { double b = m.backward(s * h, m.toTime(s * h), 1.0); if (std::fabs(b - 1.0) > 1e-15) c.st.violate(unit, fmt("backward(%.3g) = %.17g: one-sided derivative at the switch is not 1", s * h, b)); }
         for (int e = -26; e <= -8; ++e) for (double s : {1.0, -1.0}) { double h = s * std::ldexp(1.0, e); double q = (m.toTime(h) - m.toTime(0.0)) / h; if (std::fabs(q - 1.0) > 2 * std::fabs(h) + 1e-8) c.st.violate(unit, fmt("difference quotient at 0 with h=%.3g is %.17g", h, q)); }
         c.st.cls("branch switch smoothness"); } }
+    // (5) the maps as the optimizer uses them: for ALL words of length <= 3 over a duration alphabet with nearly equal neighbours around 1 ms
+    //     and around the branch point T = 1, the time block of generateInitialGuess() is toTau(T_i) entry by entry (bitwise) and an evaluation
+    //     decodes x_i to toTime(x_i) (bitwise) -- per segment, whatever the neighbouring durations are (seeded change C17-m6)
+    { const double A[6] = {0.001, 0.001 * (1.0 + 4.656612873077393e-10), 1.0 - 2.3283064365386963e-10, 1.0, 1.0 + 4.656612873077393e-10, 3600.0};
+      for (int N = 1; N <= 3; ++N) { std::string unit; if (!unit_begin(fmt("optimizer/%d", N), unit)) continue; long nw = 1; for (int i = 0; i < N; ++i) nw *= 6;
+        for (long w = 0; w < nw; ++w) for (int which = 0; which < 2; ++which) { std::vector<double> T(N); long ww = w; for (int i = 0; i < N; ++i) { T[i] = A[ww % 6]; ww /= 6; }
+          Eigen::Matrix<double, Eigen::Dynamic, 1> P(N + 1); for (int i = 0; i <= N; ++i) P(i) = 0.5 * i - 0.25 * (i & 1); BoundaryConditions<1> bc; ++c.st.comparisons;
+          auto run = [&](auto &opt, auto map) { if (!opt.setInitState(T, P, -2.5, bc)) { c.st.violate(unit, "valid problem rejected: " + opt.getLastError()); return; }
+            Eigen::VectorXd x = opt.generateInitialGuess(), g; for (int i = 0; i < N; ++i) if (!bits_equal(x(i), map.toTau(T[i]))) { c.st.violate(unit, fmt("generateInitialGuess(): time variable %d is %.17g, toTau(%.17g) = %.17g (durations %s)", i, x(i), T[i], map.toTau(T[i]), fmt_vec(T).c_str()), {{"what", "optimizer-initial-guess"}}); return; }
+            for (int i = 0; i < N; ++i) x(i) += 0.03125 * (i + 1); TimeCost tc; RunCost<1> rc = RunCost<1>::mode(0); (void)opt.evaluate(x, g, tc, rc); const auto *os = opt.getOptimalSpline();
+            for (int i = 0; i < N; ++i) if (!os || !bits_equal(os->getTimeSegments()[i], map.toTime(x(i)))) { c.st.violate(unit, fmt("evaluate(): duration %d is not toTime(x_%d) (durations %s)", i, i, fmt_vec(T).c_str()), {{"what", "optimizer-decode"}}); return; } };
+          if (which == 0) { SplineOptimizer<1, CubicSplineND<1>, QuadInvTimeMap> o; run(o, QuadInvTimeMap()); } else { SplineOptimizer<1, CubicSplineND<1>, IdentityTimeMap> o; run(o, IdentityTimeMap()); } }
+        c.st.cls("maps as used by the optimizer"); c.st.sample(fmt("unit %s: all %ld words of length %d over durations {1 ms, 1 ms(1+2^-31), 1-2^-32, 1, 1+2^-31, 3600 s}, QuadInv and Identity: initial guess = toTau per entry, decode = toTime per entry (bitwise)", unit.c_str(), nw, N), 7); } }
     // (4) identity map passes values and gradients through unchanged (bitwise)
     { std::string unit; if (unit_begin("identity", unit)) { IdentityTimeMap im; Lcg g(c.args.seed); for (int i = 0; i < 4096; ++i) { double v = std::ldexp(g.dyadic_nz(), (int)(g.next() % 80) - 40), gr = g.dyadic(); ++c.st.comparisons;
         if (!bits_equal(im.toTime(v), v) || !bits_equal(im.toTau(v), v) || !bits_equal(im.backward(v, v, gr), gr) || !bits_equal(im.backward(v, 2 * v, gr), gr)) c.st.violate(unit, fmt("IdentityTimeMap alters %.17g / %.17g", v, gr)); }
